@@ -33,7 +33,7 @@ var profC01 = &hist.Profile{
 	Name: "C01", MinOps: 10, MaxOps: 40, Topics: 3, Subs: 4,
 	W: map[string]int{
 		hist.OpPublish: 18, hist.OpPull: 20, hist.OpAck: 9, hist.OpModAck: 5, hist.OpNack: 4, hist.OpStreamAck: 1, hist.OpAdvance: 16,
-		hist.OpSeekTime: 3, hist.OpSnapshot: 3, hist.OpSeekSnap: 3, hist.OpJob: 5, hist.OpSweep: 3, hist.OpExpireSubs: 1, hist.OpStream: 2,
+		hist.OpSeekTime: 3, hist.OpSnapshot: 4, hist.OpSeekSnap: 5, hist.OpJob: 5, hist.OpSweep: 3, hist.OpExpireSubs: 1, hist.OpStream: 2,
 		hist.OpCreateSub: 6, hist.OpDeleteSub: 2, hist.OpCreateTopic: 2, hist.OpDeleteTopic: 1, hist.OpUpdateSub: 2, hist.OpGetSub: 1,
 	},
 	Ordered: 30, Keys: []string{"", "", "K1", "K2"}, Filters: hist.DefaultFilters,
@@ -41,7 +41,15 @@ var profC01 = &hist.Profile{
 	MinBs: []time.Duration{0, 100 * ms, sec, 10 * sec, 2 * hour}, MaxBs: []time.Duration{0, sec, 30 * sec, 600 * sec, 6 * hour},
 	Rets: []time.Duration{0, 0, 10 * minute, hour, 7 * day}, TTLs: []time.Duration{0, 0, day, 60 * day},
 	Foreign: true, NoSelfDL: true, AllowPruneCompleted: true, TargetExpiry: true,
-	Prelude: preludeTopics(2),
+	// two subscriptions on one topic from the start: "other subscriptions'
+	// acks" and seeks need a sibling to act on
+	Prelude: func(t *rapid.T, g *hist.Gen) {
+		preludeTopics(2)(t, g)
+		for _, s := range []string{"s0", "s1"} {
+			cfg := g.GenCfg("t0")
+			g.R.Step(hist.Op{K: hist.OpCreateSub, S: s, T: "t0", Cfg: &cfg})
+		}
+	},
 }
 
 func TestC01(t *testing.T) {
